@@ -126,6 +126,11 @@ def rand_amount(rng: random.Random, style: str, max_sig: int = 0) -> Decimal:
         value = Decimal(rng.randint(1, 2000)) / Decimal(10**11)
     elif style == "huge":
         value = Decimal(rng.randint(1, 10**9)) + Decimal(rng.randint(0, 10**6)) / Decimal(10**6)
+    elif style == "cli":
+        # <= 1e4 with <= 7 decimals: fraction amounts written as doubles can be snapped back to their exact value
+        value = Decimal(rng.randint(1, 10**7)) / Decimal(10 ** rng.randint(3, 7))
+        if rng.random() < 0.3:
+            value = Decimal(rng.randint(1, 30))
     else:
         raise ValueError(style)
     value = _limit_sig(value, max_sig)
